@@ -834,7 +834,30 @@ def run_auth_impl(world, ops):
             else:
                 row.append(None)
         applied.append(row)
-    return {"outs": outs, "providers": providers, "tests": tst, "handles": hsets, "set": applied}
+    # set_on_case: test storage, else schema.auth (storage 1) if defined, else the global storage (storage 0)
+    def marker(case):
+        got = getattr(case, "_verif_auth", None)
+        if got is not None:
+            return got[0]
+        if getattr(case, "_auth", None) is not None:
+            return case._auth._verif_cls
+        return None
+
+    on_case = []
+    old = (world.schema.auth, auths.GLOBAL_AUTH_STORAGE)
+    world.schema.auth, auths.GLOBAL_AUTH_STORAGE = stores[1], stores[0]
+    try:
+        for t in [None] + tests:
+            row = []
+            for operation in world.operations:
+                case = operation.Case()
+                auths.set_on_case(case, auths.AuthContext(operation=operation, app=None),
+                                  None if t is None else auths.AuthStorageMark.get(t))
+                row.append(marker(case))
+            on_case.append(row)
+    finally:
+        world.schema.auth, auths.GLOBAL_AUTH_STORAGE = old
+    return {"outs": outs, "providers": providers, "tests": tst, "handles": hsets, "set": applied, "set_on_case": on_case}
 
 
 def canon_auth_model(m):
@@ -849,7 +872,8 @@ def canon_auth_model(m):
         return {"cls": p["cls"], "filt": f}
 
     return {"outs": m["outs"], "providers": [[enc(p) for p in s] for s in m["providers"]],
-            "tests": [enc(p) for p in m["tests"]], "handles": [norm_fs(h) for h in m["handles"]], "set": m["set"]}
+            "tests": [enc(p) for p in m["tests"]], "handles": [norm_fs(h) for h in m["handles"]], "set": m["set"],
+            "set_on_case": m["set_on_case"]}
 
 
 def random_auth_history(rng):
@@ -879,9 +903,11 @@ def random_auth_history(rng):
 
 
 def py_auth_spec(ops):
-    """each provider's filters = what was chained on ITS handle before it was decorated; first admitting provider wins"""
-    hset, hstore, hkind = [], [], []
+    """each provider's filters = what was chained on ITS handle before it was decorated; first admitting provider wins;
+    scope: the test's own storage, else the schema's if it has providers, else the global one"""
+    hset, hstore, hkind, hcls = [], [], [], []
     stores = [[] for _ in range(N_STORES)]
+    tests = {}
     late = False
     for op in ops:
         k = op[0]
@@ -889,31 +915,42 @@ def py_auth_spec(ops):
             hset.append({"inc": [], "exc": [], "decorated": False})
             hstore.append(op[1])
             hkind.append(k)
+            hcls.append(op[2] if k != "register" else None)
             if k == "setFromRequests":
                 stores[op[1]].append((op[2], hset[-1]))
-                hset[-1]["decorated"] = True
         elif k == "handleApply":
             s = hset[op[1]]
-            if s["decorated"] and hkind[op[1]] != "setFromRequests":
+            if s["decorated"]:
                 late = True  # filters chained after decoration: outside the statement
             py_add(s, op[2], op[3])
         elif k == "decorate":
             if hkind[op[1]] == "register":
                 hset[op[1]]["decorated"] = True
                 stores[hstore[op[1]]].append((op[2], hset[op[1]]))
-            elif hkind[op[1]] == "apply":
+            elif hkind[op[1]] == "apply" and op[2] not in tests:
                 hset[op[1]]["decorated"] = True
+                tests[op[2]] = (hcls[op[1]], hset[op[1]])
         elif k == "unregister":
             stores[op[1]] = []
     if late:
         return None
-    out = []
-    for s in stores:
+
+    def first(s, o):
+        return next((c for c, fs in s if py_matches(fs, o)), None)
+
+    per_store = [[first(s, o) for o in range(len(OPS))] for s in stores]
+    on_case = []
+    for t in [None] + list(range(N_TESTS)):
         row = []
         for o in range(len(OPS)):
-            row.append(next((c for c, fs in s if py_matches(fs, o)), None))
-        out.append(row)
-    return out
+            if t is not None and t in tests:
+                row.append(first([tests[t]], o))
+            elif stores[1]:
+                row.append(first(stores[1], o))
+            else:
+                row.append(first(stores[0], o))
+        on_case.append(row)
+    return per_store, on_case
 
 
 def auth_corr(chk, world, n):
@@ -931,15 +968,20 @@ def auth_corr(chk, world, n):
                  sample={"ops": ops, "impl": {"providers": impl["providers"], "set": impl["set"]}})
         for op in ops:
             chk.feature(f"auth-op:{op[0]}")
-        for part in ("outs", "providers", "tests", "handles", "set"):
+        for part in ("outs", "providers", "tests", "handles", "set", "set_on_case"):
             if impl[part] != mod[part]:
                 chk.disagreement("auth", {"part": part, "ops": ops}, mod[part], impl[part])
                 break
         want = py_auth_spec(ops)
-        if want is not None and impl["set"] != want:
+        if want is not None and impl["set"] != want[0]:
             chk.violation("C19:AuthStorage:provider-applied-against-own-filters",
-                          f"auth applied per operation {impl['set']}; providers' own filters (first admitting one wins) give {want}",
-                          {"kind": "auth", "ops": ops, "impl": impl["set"], "spec": want})
+                          f"auth applied per operation {impl['set']}; providers' own filters (first admitting one wins) give {want[0]}",
+                          {"kind": "auth", "ops": ops, "impl": impl["set"], "spec": want[0]})
+        if want is not None and impl["set_on_case"] != want[1]:
+            chk.violation("C19:set_on_case:provider-of-the-wrong-scope-or-against-own-filters",
+                          f"set_on_case per (test, operation) {impl['set_on_case']}; test storage, else schema's, else global "
+                          f"with each provider's own filters give {want[1]}",
+                          {"kind": "auth", "ops": ops, "impl": impl["set_on_case"], "spec": want[1]})
 
 
 # ---- FilterSet.match -----------------------------------------------------------------------------------------------
@@ -1009,12 +1051,13 @@ def run(chk):
         "own_filter_fn / own_filter_name: history form — a hook carries exactly the filters chained on its own decorator "
         "expression, for all prefixes and suffixes",
         "asFound_second_fn_gets_first_filter, asFound_by_name_loses_filter, asFound_unfiltered_inherits, "
-        "asFound_shared_before_first_fn, own_filter_full_false (snapshot refuted), nonlocalOnly_leaks",
+        "asFound_shared_before_first_fn, own_filter_full_false (snapshot refuted), nonlocalOnly_leaks, nonlocalOnly_fixes_fn_form",
         "applied_where, dispatch_where, applied_in_registration_order, all_scopes, all_scopes_order, fs_matches_spec, "
         "shouldSkip_spec (every state, every variant)",
         "case_applied_where (repaired _apply_hooks), case_applied_full_false + case_applied_asFound (snapshot)",
         "registerFn_scope, decorate_scope, unregister_exact, unregisterAll_exact, unregister_applied, fn_hook_applied_iff",
-        "auth_own_filter, auth_provider_filter, auth_set_first_match, auth_set_none",
+        "auth_own_filter (ALL auth histories), auth_provider_filter, auth_provider_gets, auth_set_first_match, auth_set_none, "
+        "setOnCase_scope",
     ]
     chk.partial += [
         "machines are created up front (4: GLOBAL.register, schema.hooks.register, schema.hook, test.register); "
